@@ -300,8 +300,22 @@ def main():
     # 3. correspondence
     rc, out = build_coq("Check/%s.vo" % prop, 1500)
     check_ok = rc == 0
+    fallback = False
     if not check_ok:
         broken.append(dict({"kind": "broken-correspondence", "detail": "model does not build"}, **first_error(out)))
+        # The model files generated from the CURRENT source do not build. The property is no longer shown (that is
+        # already recorded above); to SEARCH for a concrete failing input, evaluate the implementation against the
+        # model files generated from the baseline source (tools/gen.baseline, written with the fingerprints).
+        bdir = os.path.join(ROOT, "tools", "gen.baseline")
+        if os.path.isdir(bdir):
+            for fn in os.listdir(bdir):
+                src_b, dst = open(os.path.join(bdir, fn)).read(), os.path.join(COQ, "gen", fn)
+                if not os.path.exists(dst) or open(dst).read() != src_b:
+                    open(dst, "w").write(src_b)
+            rc, out = build_coq("Check/%s.vo" % prop, 1500)
+            if rc == 0:
+                check_ok, fallback = True, True
+                notes.append("model files generated from the current source do not build; the search for a failing input used the baseline model files (tools/gen.baseline)")
     variants = cfg["variants_thorough"] if tier == "thorough" else cfg["variants_quick"]
     rundir = os.path.join(BUILD, "run", prop)
     shutil.rmtree(rundir, ignore_errors=True)
@@ -424,6 +438,8 @@ def main():
         violations = max(1, len(model_only))
         exit_code = 1
 
+    if fallback:   # put the files generated from the current source back
+        sh([sys.executable, os.path.join(ROOT, "tools", "gen.py"), os.path.join(REPO, "src")])
     wall = time.time() - t0
     obligations = n_theorems
     discharged = n_theorems if proof_ok else 0
